@@ -1,3 +1,4 @@
+#![recursion_limit = "1024"]
 use epserde::prelude::*;
 use epsh::term::{hex, parse, unhex};
 use epsh::*;
@@ -9,6 +10,15 @@ static GLOBAL: epsh::alloc::Counting = epsh::alloc::Counting;
 mod gen_types;
 
 fn apply_mut(mu: &str, hl: usize, s: &[u8]) -> Option<Vec<u8>> {
+    // `a+b`: one perturbation after the other
+    let mut v = s.to_vec();
+    for one in mu.split('+') {
+        v = apply_mut1(one, hl, &v)?;
+    }
+    Some(v)
+}
+
+fn apply_mut1(mu: &str, hl: usize, s: &[u8]) -> Option<Vec<u8>> {
     let off = |t: &str| -> Option<usize> {
         if let Some(r) = t.strip_prefix("b+") {
             r.parse::<usize>().ok().map(|x| x + hl)
@@ -250,7 +260,7 @@ fn real_main() {
                 _ => "badval".into(),
             }),
             ["leak" | "leaku", i, loader, reps, h] => Some(match reg[i.parse::<usize>().unwrap()].leak {
-                Some(f) => f(&(if *h == "DIR" { b"<dir>".to_vec() } else { unhex(h) }), loader, reps.parse().unwrap()),
+                Some(f) => f(&(if *h == "DIR" { b"<dir>".to_vec() } else if *h == "EMPTY" { Vec::new() } else { unhex(h) }), loader, reps.parse().unwrap()),
                 None => "badval".into(),
             }),
             ["bigfile", kind, spec, loader, prefix] => Some(epsh::ops::bigfile(kind, spec, loader, prefix)),
